@@ -1,6 +1,7 @@
 SPECIFICATION Spec
 CONSTANTS
-  MaxLen = 7
+  MaxLen = 8
+  ArrayNs = {1, 2, 3, 4, 5, 8, 16}
 VIEW View
 INVARIANTS TypeOK LiveInv Refines RemainderInv ItemsInside ArithInv EmitInv
 CHECK_DEADLOCK FALSE
